@@ -11,10 +11,10 @@ pub fn prop() -> Prop {
     Prop {
         id: "C08",
         level: "model_checking",
-        rule: "all streams of <=4 (thorough <=6) rows {k,v,id} over the keys {a,b,c,absent} (ids make tied rows distinguishable) plus every stream of <=3 rows repeated cyclically to 17 and 40 rows, and streams of 257 and 1030 rows (S,T around 255..257 and the end) x 14 pipelines (none; sort on selected names; a selection under which rows repeat; 1,2,3 sort keys with ties in both directions; unique; unique+sort on a selected name; filter; filter+sort; split; split+sort) x {no grouping, --group-by, --merge} x S in 0..3 (thorough 0..6; long: 0,1,5,16,17,39,40,41) x T in {absent,0..3} (thorough 0..6; long: 0,1,5,16,17,40,41); for half of the (S,T) the same input is also given as two and three files; non-trivial = the cut S+T falls inside the unlimited result and a tie straddles it, or a grouping stage follows the limiter; distinct by construction",
+        rule: "all streams of <=4 (thorough <=6) rows {k,v,id} over the keys {a,b,c,absent} (ids make tied rows distinguishable) plus every stream of <=3 rows repeated cyclically to 17 and 40 rows, and streams of 257 and 1030 rows (S,T around 255..257 and the end) x 14 pipelines (none; sort on selected names; a selection under which rows repeat; 1,2,3 sort keys with ties in both directions; unique; unique+sort on a selected name; filter; filter+sort; split; split+sort) x {no grouping, --group-by, --merge} x S in 0..3 (thorough 0..6; long: 0,1,5,16,17,39,40,41) x T in {absent,0..3} (thorough 0..6; long: 0,1,5,16,17,40,41); for half of the (S,T) the same input is also given as two and three files; non-trivial = the cut S+T falls inside the unlimited result and a tie straddles it, or a grouping stage follows the limiter; distinct by construction; streams of 2..3 (thorough 4) rows over 8 sort keys of other types (objects and arrays that differ only in member order, 1 and 1.0, null, a string) through every sorting pipeline",
         explanation: "differential: the rows R of the same pipeline without --skip/--take (and without grouping) are obtained from the implementation; with the limits the output must be exactly R[S..S+T), and with grouping the single collection built from exactly those rows; every case is also compared with the reference pipeline (stable multi-key sort, first key most significant)",
         assumptions: COMMON_ASSUMPTIONS.to_vec(),
-        guards: vec!["command-line-respelled", "input-spread-over-files", "hundreds-of-rows", "cut-inside-a-tie", "limiter-before-grouper", "secondary-key-with-take", "take-zero", "skip-beyond-end", "more-rows-than-skip-plus-take-under-sort"],
+        guards: vec!["sort-keys-that-are-objects", "file-without-values-between-files", "command-line-respelled", "input-spread-over-files", "hundreds-of-rows", "cut-inside-a-tie", "limiter-before-grouper", "secondary-key-with-take", "take-zero", "skip-beyond-end", "more-rows-than-skip-plus-take-under-sort"],
         budget_s: (100, 2400),
         single_worker: false,
         run,
@@ -204,6 +204,11 @@ fn explore(ctx: &mut Ctx, pl: &Pl, rows: &[V], ss: &[u64], ts: &[Option<u64>]) {
                             files.push((format!("{}{fi}.json", ["q", "b", "m"][fi % 3]), crate::refmodel::pipeline::input_text(&inputs[prev..*c])));
                             prev = *c;
                         }
+                        // a file that holds no value (empty, or white space only) between the others changes nothing
+                        if cuts.len() == 1 {
+                            files.insert(1, ("empty.json".to_string(), if (s + t.unwrap_or(0)) % 4 == 1 { Vec::new() } else { b" \n\n".to_vec() }));
+                            ctx.guard("file-without-values-between-files");
+                        }
                         // `--merge` takes an optional value: it must not be the word before the file names
                         let mut fargs = cfg.args();
                         if fargs.last().map(|a| a == "--merge").unwrap_or(false) {
@@ -255,6 +260,24 @@ fn run(ctx: &mut Ctx) {
             }
         }
         ctx.level_done(&format!("all-streams-of-{len}-rows"));
+        // the same under sort keys of other types: numbers, null, arrays, and objects (two of them with the same members
+        // in another order, which `=` calls equal and the sort still has to place somewhere)
+        if len >= 2 && len <= ctx.tier.pick(3usize, 4) {
+            let k2: Vec<Option<V>> = ["{\"x\": 1, \"y\": 2}", "{\"y\": 2, \"x\": 1}", "[1, {\"p\": 1, \"q\": 2}]", "[1, {\"q\": 2, \"p\": 1}]", "1", "1.0", "null", "\"a\""].iter().map(|t| Some(json::parse_str(t))).collect();
+            let mut todo: Vec<Vec<usize>> = Vec::new();
+            crate::explore::seqs_exact(k2.len(), len, |i| todo.push(i.to_vec()));
+            for idx in todo {
+                for pl in pls.iter().filter(|p| p.sort_keys > 0 && !p.split && p.cfg.filter.is_none()) {
+                    if !ctx.mine() {
+                        continue;
+                    }
+                    ctx.guard("sort-keys-that-are-objects");
+                    let rows = pipe::rows_from(&k2, &idx);
+                    explore(ctx, pl, &rows, &ss[..3.min(ss.len())], &ts[..4.min(ts.len())]);
+                }
+            }
+            ctx.level_done(&format!("streams-of-{len}-rows-with-keys-of-other-types"));
+        }
     }
     // long families: B-tree node splits (> 11 keys do not occur with 4 keys, but > 8 rows per bucket do), VecDeque growth
     let lss: Vec<u64> = vec![0, 1, 5, 16, 17, 39, 40, 41];
